@@ -16,6 +16,7 @@ correspondence check. The specification below (`pairs`, `epochBlock`, `Epochs`, 
 does not mention the model's loops.
 -/
 import QV.Model.Train
+import QV.Model.LambdaCb
 import QV.Lemmas.Train
 
 namespace QV.Props
@@ -564,6 +565,318 @@ example :
     (session [⟨none, a, R1⟩, ⟨none, a, R0⟩, ⟨some false, { a with epochs := 1 }, R0⟩] false).toOption.map
         (fun outs => outs.map (fun o => ((events o.1).length, o.2.stop, o.2.ver))) =
       some [(12, true, 4), (0, true, 0), (12, false, 4)] := by decide
+
+/-! ## Runs without batches (`len(data) = 0`, hence `numBatches = 0`)
+
+The real `fit` accepts a data set with no rows (positive state): every epoch is `es e, ee e` with no batch,
+no optimizer step. `C12_complete_without_stop` and `C12_stop_at_epoch_end` above hold for every `numBatches`
+(also 0); the theorems of this section cover what the `1 ≤ numBatches` theorems leave out. -/
+
+theorem batchesRun_zero (c : Cfg) (R : Req) (stopIn : Bool) (e : Int) (h0 : c.numBatches = 0) :
+    batchesRun c R stopIn e = 0 := by
+  simp [batchesRun, h0]
+
+theorem fullEpochs_empty (nb : Nat) (a b : Int) (h : b < a) : fullEpochs nb a b = [] := by
+  unfold fullEpochs; rw [epochRange_rec, if_pos h]; rfl
+
+theorem fullEpochs_cons (nb : Nat) (a b : Int) (h : a ≤ b) :
+    fullEpochs nb a b = epochBlock a nb ++ fullEpochs nb (a + 1) b := by
+  unfold fullEpochs; rw [epochRange_rec a b, if_neg (by omega)]; simp
+
+theorem fullEpochs_snoc (nb : Nat) (a e : Int) (h : a ≤ e) :
+    fullEpochs nb a e = fullEpochs nb a (e - 1) ++ epochBlock e nb := by
+  unfold fullEpochs; rw [epochRange_snoc a e h, List.flatMap_append]; simp
+
+theorem fullEpochs_no_train (nb : Nat) (a b : Int) :
+    Event.trainStart ∉ fullEpochs nb a b ∧ Event.trainEnd ∉ fullEpochs nb a b := by
+  constructor <;> simp [fullEpochs, epochBlock, pairs]
+
+theorem fullEpochs_start_end (nb : Nat) (a b : Int) :
+    (fullEpochs nb a b).filterMap epochEndOf = (fullEpochs nb a b).filterMap epochStartOf := by
+  unfold fullEpochs
+  induction epochRange a b with
+  | nil => rfl
+  | cons e es ih =>
+    have h1 := pairs_filterMap_none epochEndOf e nb (fun _ => rfl) (fun _ => rfl)
+    have h2 := pairs_filterMap_none epochStartOf e nb (fun _ => rfl) (fun _ => rfl)
+    have b1 : (epochBlock e nb).filterMap epochEndOf = [e] := by
+      simp [epochBlock, List.filterMap_cons, List.filterMap_append, h1, epochEndOf]
+    have b2 : (epochBlock e nb).filterMap epochStartOf = [e] := by
+      simp [epochBlock, List.filterMap_cons, List.filterMap_append, h2, epochStartOf]
+    rw [List.flatMap_cons, List.filterMap_append, List.filterMap_append, b1, b2, ih]
+
+/-- with no batches the epoch loop (entered with the flag clear) runs whole `es e, ee e` epochs up to some `m` -/
+theorem runEpochs_no_batches (c : Cfg) (R : Req) (h0 : c.numBatches = 0) (b : Int) :
+    ∀ (n : Nat) (a : Int), (b + 1 - a).toNat = n →
+      ∃ m : Int, m ≤ b ∧ runEpochs c R (epochRange a b) = fullEpochs 0 a m := by
+  intro n
+  induction n with
+  | zero =>
+    intro a h
+    refine ⟨b, Int.le_refl b, ?_⟩
+    rw [epochRange_rec, if_pos (by omega), fullEpochs_empty 0 a b (by omega)]; simp
+  | succ n ih =>
+    intro a h
+    rw [epochRange_rec, if_neg (by omega), runEpochs_cons, epochEv_eq_block, batchesRun_zero c R false a h0]
+    cases hq : epochReq c R a
+    · obtain ⟨m, hm, he⟩ := ih (a + 1) (by omega)
+      simp only [Bool.false_eq_true, if_false]
+      by_cases hma : a ≤ m
+      · exact ⟨m, hm, by rw [he, fullEpochs_cons 0 a m hma]⟩
+      · refine ⟨a, by omega, ?_⟩
+        rw [he, fullEpochs_empty 0 (a + 1) m (by omega), fullEpochs_cons 0 a a (Int.le_refl a),
+          fullEpochs_empty 0 (a + 1) a (by omega)]
+    · refine ⟨a, by omega, ?_⟩
+      simp only [if_true, List.append_nil]
+      rw [fullEpochs_cons 0 a a (Int.le_refl a), fullEpochs_empty 0 (a + 1) a (by omega)]; simp
+
+/-- the shape of a run without batches that was not stopped beforehand -/
+theorem fit_shape_no_batches (c : Cfg) (R : Req) (h0 : c.numBatches = 0) :
+    ∃ m : Int, m ≤ c.epochs ∧
+      events (fit c R false).1 = Event.trainStart :: (fullEpochs 0 c.start m ++ [Event.trainEnd]) := by
+  cases hts : reqEv c R .trainStart
+  · obtain ⟨m, hm, he⟩ := runEpochs_no_batches c R h0 c.epochs _ c.start rfl
+    exact ⟨m, hm, by rw [fit_events_go c R hts, he]⟩
+  · rw [fit_events_tsStop c R hts, epochRange_rec]
+    by_cases h : c.epochs < c.start
+    · refine ⟨c.epochs, Int.le_refl _, ?_⟩
+      rw [if_pos h, fullEpochs_empty 0 c.start c.epochs h]; simp
+    · refine ⟨c.start, by omega, ?_⟩
+      rw [if_neg h, fullEpochs_cons 0 c.start c.start (Int.le_refl _),
+        fullEpochs_empty 0 (c.start + 1) c.start (by omega)]
+      simp only [List.take_succ_cons, List.take_zero, List.flatMap_cons, List.flatMap_nil, List.append_nil]
+      rw [epochEv_eq_block, batchesRun_zero c R true c.start h0]
+
+/-- **C12.1 for zero batches** A run on a data set without rows (`numBatches = 0`) is well-formed too: nothing at
+all iff a stop was already requested; otherwise train-start once, whole epochs `es e, ee e` for consecutive
+`e = starting_epoch … m` with `m ≤ epochs` (no batch event at all), train-end once. No optimizer step is
+taken and the parameter version stays 0. (Which `m`: `epochs` without a stop — `C12_complete_without_stop` —,
+the epoch of the first request otherwise — `C12_stop_at_epoch_end`, `C12_stop_at_epoch_start_no_batches`.) -/
+theorem C12_protocol_no_batches (c : Cfg) (R : Req) (stop₀ : Bool) (h0 : c.numBatches = 0) :
+    (∃ m : Int, m ≤ c.epochs ∧ events (fit c R stop₀).1 =
+        if stop₀ then [] else Event.trainStart :: (fullEpochs 0 c.start m ++ [Event.trainEnd])) ∧
+    (events (fit c R stop₀).1).count .trainStart = (if stop₀ then 0 else 1) ∧
+    (events (fit c R stop₀).1).count .trainEnd = (if stop₀ then 0 else 1) ∧
+    (fit c R stop₀).2.ver = 0 ∧ (fit c R stop₀).1.countP Entry.isOpt = 0 := by
+  have hver : (fit c R stop₀).2.ver = 0 ∧ (fit c R stop₀).1.countP Entry.isOpt = 0 := by
+    have hb : (events (fit c R stop₀).1).countP isBatchStart = 0 := by
+      cases stop₀
+      · obtain ⟨m, _, he⟩ := fit_shape_no_batches c R h0
+        have hz : (fullEpochs 0 c.start m).countP isBatchStart = 0 := by
+          rw [List.countP_eq_zero]
+          intro x hx
+          simp only [fullEpochs, epochBlock, pairs, List.range_zero, List.flatMap_nil, List.nil_append,
+            List.mem_flatMap, List.mem_cons, List.not_mem_nil, or_false] at hx
+          obtain ⟨e, _, rfl | rfl⟩ := hx <;> simp [isBatchStart]
+        rw [he]
+        simp [List.countP_append, isBatchStart, hz]
+      · rw [fit_stopped]; rfl
+    constructor
+    · rw [(C12_param_window c R stop₀).2.2, hb]
+    · rw [countP_isOpt_skeleton, (fit_proj c R stop₀).1, expand_countP_isOpt, hb]
+  cases stop₀
+  · obtain ⟨m, hm, he⟩ := fit_shape_no_batches c R h0
+    obtain ⟨n1, n2⟩ := fullEpochs_no_train 0 c.start m
+    refine ⟨⟨m, hm, by simpa using he⟩, ?_, ?_, hver⟩
+    · rw [he]; simp [List.count_append, List.count_eq_zero_of_not_mem n1]
+    · rw [he]; simp [List.count_append, List.count_eq_zero_of_not_mem n2]
+  · refine ⟨⟨c.epochs, Int.le_refl _, by rw [fit_stopped]; rfl⟩, ?_, ?_, hver⟩ <;> rw [fit_stopped] <;> rfl
+
+/-- **C12.3c for zero batches** First stop request at epoch-start of epoch `e` when there are no batches: no
+batch runs (contrast `C12_stop_at_epoch_start`: with batches exactly one more runs), the epoch's end event
+and train-end still fire, no further epoch begins. -/
+theorem C12_stop_at_epoch_start_no_batches (c : Cfg) (R : Req) (e : Int) (h0 : c.numBatches = 0)
+    (h1 : c.start ≤ e) (h2 : e ≤ c.epochs) (hq : QuietBefore c R e) (hr : reqEv c R (.epochStart e) = true) :
+    events (fit c R false).1 = Event.trainStart :: (fullEpochs 0 c.start e ++ [Event.trainEnd]) ∧
+    (fit c R false).2.stop = true := by
+  have he : epochReq c R e = true := by simp [epochReq, hr]
+  have := fit_first_stop c R e h1 h2 hq he
+  rw [batchesRun_zero c R false e h0, h0] at this
+  refine ⟨?_, this.2⟩
+  rw [this.1, fullEpochs_snoc 0 c.start e h1]
+
+/-- **C12.3d for zero batches** Stop requested at train-start when there are no batches: if the epoch range is
+non-empty the first epoch's `es, ee` fire (no batch), then train-end; the flag stays set. -/
+theorem C12_stop_at_train_start_no_batches (c : Cfg) (R : Req) (h0 : c.numBatches = 0)
+    (hr : reqEv c R .trainStart = true) :
+    events (fit c R false).1 = Event.trainStart ::
+      ((if c.start ≤ c.epochs then [Event.epochStart c.start, Event.epochEnd c.start] else []) ++
+        [Event.trainEnd]) ∧
+    (fit c R false).2.stop = true := by
+  constructor
+  · rw [fit_events_tsStop c R hr, epochRange_rec]
+    by_cases h : c.epochs < c.start
+    · rw [if_pos h, if_neg (by omega)]; simp
+    · rw [if_neg h, if_pos (by omega)]
+      simp only [List.take_succ_cons, List.take_zero, List.flatMap_cons, List.flatMap_nil, List.append_nil]
+      rw [epochEv_eq_block, batchesRun_zero c R true c.start h0]
+      rfl
+  · rw [(fit_events c R).2]; simp [hr]
+
+/-- **C12.7 for zero batches** The scheduler still steps once per epoch begun (immediately before that epoch's
+epoch-end) when the epochs have no batches. -/
+theorem C12_scheduler_once_per_epoch_no_batches (c : Cfg) (R : Req) (stop₀ : Bool) (h0 : c.numBatches = 0) :
+    (fit c R stop₀).1.filterMap schedOf =
+      (if c.hasSched then (events (fit c R stop₀).1).filterMap epochStartOf else []) ∧
+    (fit c R stop₀).2.sched =
+      (if c.hasSched then ((events (fit c R stop₀).1).filterMap epochStartOf).length else 0) := by
+  have hse : (events (fit c R stop₀).1).filterMap epochEndOf = (events (fit c R stop₀).1).filterMap epochStartOf := by
+    cases stop₀
+    · obtain ⟨m, _, he⟩ := fit_shape_no_batches c R h0
+      rw [he]
+      simp [List.filterMap_cons, List.filterMap_append, epochEndOf, epochStartOf, fullEpochs_start_end]
+    · rw [fit_stopped]; rfl
+  have h1 : (fit c R stop₀).1.filterMap schedOf =
+      (if c.hasSched then (events (fit c R stop₀).1).filterMap epochStartOf else []) := by
+    rw [filterMap_schedOf_skeleton, (fit_proj c R stop₀).1, expand_filterMap_sched, hse]
+  refine ⟨h1, ?_⟩
+  have := (track_val (fit_track c R stop₀)).2.2
+  simp only [S.key, Nat.zero_add] at this
+  rw [this, countP_isSched, h1]
+  split <;> rfl
+
+/-- `fit(data with 0 rows, pos_batch_size ≥ 1, …)` is the zero-batch state machine. -/
+theorem C12_fit_args_no_rows (a : Args) (R : Req) (stop₀ : Bool) (hB : 1 ≤ a.posB) (hN : a.N = 0) :
+    fitArgs a R stop₀ = .ok (fit { start := a.start, epochs := a.epochs, numBatches := 0,
+                                   cbs := a.callbacks.elems, timer := a.time, hasSched := a.hasSched } R stop₀) := by
+  rw [C12_fit_args a R stop₀ hB, hN]
+  have : (0 + a.posB - 1) / a.posB = 0 := by
+    apply Nat.div_eq_of_lt; omega
+  rw [this]
+
+/-- a run without batches: three epochs, callback 0 asks for a stop at the start of epoch 2 -/
+example :
+    let c : Cfg := { start := 1, epochs := 3, numBatches := 0, cbs := [0], timer := true, hasSched := true }
+    let R : Req := { cb := fun i ev => i == 0 && ev == Event.epochStart 2, mid := fun _ _ => false }
+    events (fit c R false).1 = [.trainStart, .epochStart 1, .epochEnd 1, .epochStart 2, .epochEnd 2, .trainEnd] ∧
+      (fit c R false).2.stop = true ∧ (fit c R false).2.ver = 0 ∧ (fit c R false).2.sched = 2 := by decide
+
+/-! ## `LambdaCallback`: constructor validation, default handlers, what an event invokes -/
+
+/-- the argument is acceptable for its slot: `None`, or a callable whose signature has exactly as many
+parameters as the event passes arguments -/
+def SlotOk (a : Slot → FnArg) (s : Slot) : Prop := a s = .none ∨ ∃ id, a s = .fn id s.numParams
+
+/-- the handler installed for an acceptable argument: the function itself; the no-op for `None` -/
+def handlerOf : FnArg → Handler
+  | .fn id _ => .user id
+  | _ => .noop
+
+/-- the exception an unacceptable argument raises: `TypeError` if it is not callable, `ValueError` (wrong
+number of parameters) if it is -/
+def errKind : FnArg → PyErr
+  | .notCallable => .TypeError
+  | _ => .ValueError
+
+theorem validateSlot_ok {a : Slot → FnArg} {s : Slot} (h : SlotOk a s) :
+    validateSlot a s = .ok (handlerOf (a s)) := by
+  unfold validateSlot validateFunction
+  rcases h with h | ⟨id, h⟩ <;> rw [h] <;> simp [handlerOf]
+
+theorem validateSlot_err {a : Slot → FnArg} {s : Slot} (h : ¬ SlotOk a s) :
+    validateSlot a s = .error (errKind (a s), s) := by
+  unfold validateSlot validateFunction
+  cases ha : a s with
+  | none => exact absurd (Or.inl ha) h
+  | notCallable => rfl
+  | fn id k =>
+    have hk : k ≠ s.numParams := fun hk => h (Or.inr ⟨id, by rw [ha, hk]⟩)
+    simp [hk, errKind]
+
+theorem validateSlot_cases (a : Slot → FnArg) (s : Slot) :
+    (SlotOk a s ∧ validateSlot a s = .ok (handlerOf (a s))) ∨
+    (¬ SlotOk a s ∧ validateSlot a s = .error (errKind (a s), s)) := by
+  by_cases h : SlotOk a s
+  · exact Or.inl ⟨h, validateSlot_ok h⟩
+  · exact Or.inr ⟨h, validateSlot_err h⟩
+
+/-- **C12.11** `LambdaCallback(on_train_start=…, …, on_batch_end=…)`: the constructor succeeds iff every argument
+is `None` or a callable with exactly 1 / 1 / 2 / 2 / 3 / 3 parameters (as `inspect.signature` counts them:
+defaulted and var-args parameters included); the object then holds in each slot the caller's function for
+THAT slot (no-op for `None`). Otherwise the first offending argument, in the order train-start, train-end,
+epoch-start, epoch-end, batch-start, batch-end, decides the exception: `TypeError` if it is not callable,
+`ValueError` if its parameter count is wrong — naming that slot. -/
+theorem C12_lambda_init (a : Slot → FnArg) :
+    ((∀ s, SlotOk a s) → ∃ o, lambdaInit a = .ok o ∧ ∀ s, o.get s = handlerOf (a s)) ∧
+    (∀ s, ¬ SlotOk a s → (∀ s' : Slot, s'.idx < s.idx → SlotOk a s') →
+      lambdaInit a = .error (errKind (a s), s)) ∧
+    (∀ o, lambdaInit a = .ok o → (∀ s, SlotOk a s) ∧ ∀ s, o.get s = handlerOf (a s)) := by
+  have part1 : (∀ s, SlotOk a s) → ∃ o, lambdaInit a = .ok o ∧ ∀ s, o.get s = handlerOf (a s) := by
+    intro h
+    refine ⟨{ onTrainStart := handlerOf (a .trainStart), onTrainEnd := handlerOf (a .trainEnd),
+              onEpochStart := handlerOf (a .epochStart), onEpochEnd := handlerOf (a .epochEnd),
+              onBatchStart := handlerOf (a .batchStart), onBatchEnd := handlerOf (a .batchEnd) }, ?_, ?_⟩
+    · unfold lambdaInit
+      simp only [validateSlot_ok (h _)]
+      rfl
+    · intro s; cases s <;> rfl
+  refine ⟨part1, ?_, ?_⟩
+  · intro s hs hlt
+    have ok : ∀ s' : Slot, s'.idx < s.idx → validateSlot a s' = .ok (handlerOf (a s')) :=
+      fun s' h' => validateSlot_ok (hlt s' h')
+    unfold lambdaInit
+    cases s
+    · rw [validateSlot_err hs]; rfl
+    · rw [ok .trainStart (by decide), validateSlot_err hs]; rfl
+    · rw [ok .trainStart (by decide), ok .trainEnd (by decide), validateSlot_err hs]; rfl
+    · rw [ok .trainStart (by decide), ok .trainEnd (by decide), ok .epochStart (by decide), validateSlot_err hs]; rfl
+    · rw [ok .trainStart (by decide), ok .trainEnd (by decide), ok .epochStart (by decide),
+        ok .epochEnd (by decide), validateSlot_err hs]; rfl
+    · rw [ok .trainStart (by decide), ok .trainEnd (by decide), ok .epochStart (by decide),
+        ok .epochEnd (by decide), ok .batchStart (by decide), validateSlot_err hs]; rfl
+  · intro o ho
+    have hall : ∀ s, SlotOk a s := by
+      unfold lambdaInit at ho
+      rcases validateSlot_cases a .trainStart with ⟨k0, e0⟩ | ⟨_, e0⟩ <;> rw [e0] at ho
+      · rcases validateSlot_cases a .trainEnd with ⟨k1, e1⟩ | ⟨_, e1⟩ <;> rw [e1] at ho
+        · rcases validateSlot_cases a .epochStart with ⟨k2, e2⟩ | ⟨_, e2⟩ <;> rw [e2] at ho
+          · rcases validateSlot_cases a .epochEnd with ⟨k3, e3⟩ | ⟨_, e3⟩ <;> rw [e3] at ho
+            · rcases validateSlot_cases a .batchStart with ⟨k4, e4⟩ | ⟨_, e4⟩ <;> rw [e4] at ho
+              · rcases validateSlot_cases a .batchEnd with ⟨k5, e5⟩ | ⟨_, e5⟩ <;> rw [e5] at ho
+                · intro s; cases s <;> assumption
+                · cases ho
+              · cases ho
+            · cases ho
+          · cases ho
+        · cases ho
+      · cases ho
+    refine ⟨hall, ?_⟩
+    obtain ⟨o', ho', hget⟩ := part1 hall
+    rw [ho'] at ho
+    cases ho
+    exact hget
+
+/-- the default object `LambdaCallback()` has six no-op handlers; a bound-method style count is rejected:
+a 2-parameter function is accepted for an epoch slot and rejected (ValueError) for a batch slot -/
+example :
+    (lambdaInit (fun _ => .none)).toOption.map (fun o => [o.get .trainStart, o.get .epochEnd, o.get .batchEnd]) =
+      some [.noop, .noop, .noop] ∧
+    lambdaInit (fun s => if s = .epochEnd then .fn 7 2 else .none) =
+      .ok { onTrainStart := .noop, onTrainEnd := .noop, onEpochStart := .noop, onEpochEnd := .user 7,
+            onBatchStart := .noop, onBatchEnd := .noop } ∧
+    lambdaInit (fun s => if s = .batchStart then .fn 7 2 else if s = .batchEnd then .notCallable else .none) =
+      .error (.ValueError, .batchStart) := ⟨by rfl, by rfl, by rfl⟩
+
+theorem userCalls_eq (T : Table) (l : List Entry) : userCalls T l = (calls l).filterMap T.invoke := by
+  induction l with
+  | nil => rfl
+  | cons x l ih =>
+    cases x <;> simp [userCalls, calls, List.filterMap_cons] at ih ⊢ <;> try exact ih
+    all_goals (split <;> simp_all)
+
+/-- **C12.12** What user code runs: every event of the run is offered to every listed callback in list order
+(`C12_dispatch_order`), and on each callback exactly the function sitting in THAT event's slot runs — for a
+`LambdaCallback` the function the caller passed for that slot (`C12_lambda_init`), nothing for a slot left
+`None` (or a method a `CallbackBase` subclass does not override). So a callback given a subset of handlers
+observes the protocol trace filtered to that subset, in order, with the event's own arguments. -/
+theorem C12_lambda_dispatch (T : Table) (c : Cfg) (R : Req) (stop₀ : Bool) :
+    userCalls T (fit c R stop₀).1 =
+      (events (fit c R stop₀).1).flatMap (fun ev => c.cbs.filterMap (fun i => T.invoke (i, ev))) := by
+  rw [userCalls_eq, C12_dispatch_order, List.filterMap_flatMap]
+  congr 1
+  funext ev
+  rw [List.filterMap_map]
+  rfl
 
 /-! ## Non-vacuity: a concrete run -/
 
